@@ -48,6 +48,38 @@ HAS_STARTS = {"stDAG", "stDiGraph", "NodeExpandedDiGraph", "MinFlowDecomp", "kMi
               "MinPathCover", "kFlowDecompCycles", "MinFlowDecompCycles", "kMinPathErrorCycles", "kLeastAbsErrorsCycles",
               "kPathCoverCycles", "MinPathCoverCycles", "MinErrorFlow"}
 
+# documented NON-DEFAULT optimization options, as option vectors that are valid for the class (e.g. safe sequences on the DAG side
+# exclude safe paths; kFlowDecomp's flow-safe paths exclude both).  {} = the defaults.
+_PATH_SAFETY = [{}, {"optimize_with_safe_paths": False, "optimize_with_safe_sequences": True},
+                {"optimize_with_safe_zero_edges": False}, {"optimize_with_safety_as_subpath_constraints": True},
+                {"optimize_with_safety_from_largest_antichain": True}, {"optimize_with_subpath_constraints_as_safe_sequences": False},
+                {"optimize_with_safe_paths": False}]
+_KFD = [{}, {"optimize_with_greedy": False}, {"optimize_with_flow_safe_paths": False},
+        {"optimize_with_greedy": False, "optimize_with_flow_safe_paths": False, "optimize_with_safe_paths": False, "optimize_with_safe_sequences": True},
+        {"optimize_with_safe_zero_edges": False, "optimize_with_greedy": False}, {"optimize_with_safety_as_subpath_constraints": True},
+        {"optimize_with_flow_safe_paths": False, "optimize_with_safety_from_largest_antichain": True}]
+_WALK_SAFETY = [{}, {"optimize_with_safe_sequences": False}, {"optimize_with_safe_sequences_fix_via_bounds": True},
+                {"optimize_with_safe_sequences_allow_geq_constraints": False}, {"optimize_with_safe_sequences_fix_zero_edges": False},
+                {"optimize_with_safety_as_subset_constraints": True}, {"optimize_with_max_safe_antichain_as_subset_constraints": True},
+                {"optimize_with_safe_sequences_fix_via_bounds": True, "optimize_with_safe_sequences_allow_geq_constraints": False}]
+OPTION_VECTORS = {
+    "kFlowDecomp": _KFD,
+    "MinFlowDecomp": _KFD + [{"use_min_gen_set_lowerbound": True}, {"use_min_gen_set_lowerbound": True, "use_min_gen_set_lowerbound_partition_constraints": True},
+                             {"use_subgraph_scanning_lowerbound": True}, {"optimize_with_guessed_weights": True},
+                             {"use_subgraph_scanning_lowerbound": True, "optimize_with_guessed_weights": True, "use_min_gen_set_lowerbound": True},
+                             {"min_gen_set_remove_sums_of_two": False, "use_min_gen_set_lowerbound": True, "optimize_with_greedy": False},
+                             {"lowerbound_k": 2},
+                             {"use_min_gen_set_lowerbound": True, "use_min_gen_set_lowerbound_partition_constraints": True,
+                              "use_min_gen_set_lowerbound_partition_constraints_min_constraint_len": 1,
+                              "use_min_gen_set_lowerbound_partition_constraints_limit_num_constraints": 5}],
+    "kMinPathError": _PATH_SAFETY, "kLeastAbsErrors": _PATH_SAFETY, "kPathCover": _PATH_SAFETY, "MinPathCover": _PATH_SAFETY,
+    "kFlowDecompCycles": _WALK_SAFETY, "kMinPathErrorCycles": _WALK_SAFETY, "kLeastAbsErrorsCycles": _WALK_SAFETY,
+    "kPathCoverCycles": _WALK_SAFETY, "MinPathCoverCycles": _WALK_SAFETY,
+    "MinFlowDecompCycles": _WALK_SAFETY + [{"use_min_gen_set_lowerbound": True}, {"optimize_with_guessed_weights": True},
+                                           {"optimize_with_guessed_weights": True, "use_min_gen_set_lowerbound": True, "add_min_gen_set_to_given_weights": True},
+                                           {"optimize_with_guessed_weights": True, "optimize_with_given_weights_num_free_walks": 1}, {"lowerbound_k": 2}],
+}
+
 SOLVER_OPTIONS = {"threads": 1, "time_limit": 4}          # ONE threads value per process; a time-out only turns "solved" into "unsolved"
 
 
@@ -124,8 +156,7 @@ def gen_valid(rng, cls):
     # the given-weights argument (one entry per route, so that an exact decomposition with them exists) and a solver-side option
     if cls in HAS_SUPERSET and rng.random() < 0.3:
         spec["superset"] = sorted(wts) + ([rng.randint(1, 6)] if rng.random() < 0.3 else [])
-    if cls in ("kFlowDecomp", "MinFlowDecomp") and rng.random() < 0.3:
-        spec["opts"] = {"optimize_with_greedy": False}
+    # the option vector is set by the engine (cycled over the valid inputs of a class, so that every vector meets every violation kind)
     if cls in HAS_K:
         spec["k"] = len(routes) + rng.choice([0, 0, 1])
         if cls in K_NONE_ALLOWED and rng.random() < 0.15:
@@ -497,7 +528,7 @@ def _sup(spec, rng):
         return False
     spec["superset"] = sorted(spec["route_weights"]) + ([rng.randint(1, 6)] if rng.random() < 0.3 else [])
     if spec["cls"] == "kFlowDecomp" and rng.random() < 0.5:
-        spec["opts"] = {"optimize_with_greedy": False}
+        spec["opts"] = dict(spec["opts"], optimize_with_greedy=False)
     return True
 def v_k0_sup(spec, rng): spec["k"] = 0; return _sup(spec, rng)
 def v_kneg_sup(spec, rng): spec["k"] = -2; return _sup(spec, rng)
@@ -507,7 +538,7 @@ def v_kfloat_sup(spec, rng):
 def v_kbool_sup(spec, rng): spec["k"] = rng.random() < 0.7; return _sup(spec, rng)
 def v_k0_greedy_off(spec, rng):
     if spec["cls"] != "kFlowDecomp": return False
-    spec["k"] = rng.choice([0, -1]); spec["opts"] = {"optimize_with_greedy": False}; return True
+    spec["k"] = rng.choice([0, -1]); spec["opts"] = dict(spec["opts"], optimize_with_greedy=False); return True
 # None where it is not documented, a string
 def v_knone(spec, rng):
     if spec["cls"] in K_NONE_ALLOWED: return False
@@ -631,7 +662,7 @@ def construct(spec, G=None):
         kw["k"] = spec["k"]
     if cls in HAS_SUPERSET and spec.get("superset") is not None:
         kw["solution_weights_superset"] = list(spec["superset"])
-    if spec.get("opts") and cls in ("kFlowDecomp", "MinFlowDecomp"):
+    if spec.get("opts") and cls in OPTION_VECTORS:
         kw["optimization_options"] = dict(spec["opts"])
     if cls in HAS_CONS:
         if cls in IS_CYC:
